@@ -82,10 +82,27 @@ def run_C15(case):
                     i = 0 if which == "trie" else 1
                     raise Fail("C15.same_bytes", "%s: %s store differs: memory %d bytes, file %d bytes" % (where, which, len(a[i]), len(b[i])))
 
+            retained = {}
+
             def mmap_clause(where):
                 if B.backend != "real":
                     return
                 t = B.traph
+                # a reader kept from an earlier moment must still return, for every block it
+                # covers, what the storage returns now (the map is a live view of the file)
+                for key, (mm_old, size_old, st_old) in list(retained.items()):
+                    try:
+                        off = 0
+                        while off < size_old:
+                            via_storage = st_old.read(off)  # (seeks: pending writes reach the file)
+                            via_map = mm_old.read(off)
+                            res.stats["mmap_retained_blocks_compared"] += 1
+                            if via_map != via_storage:
+                                raise Fail("C15.mmap_reader", "%s: block at %d of %s read through a memory-mapped reader taken earlier is %r, the storage now holds %r" % (where, off, key, (via_map or b"")[:24], (via_storage or b"")[:24]))
+                            off += st_old.block_size
+                    finally:
+                        mm_old.release()
+                        del retained[key]
                 for st, path in ((t.lru_trie_storage, t.lru_trie_path), (t.links_store_storage, t.link_store_path)):
                     mm = st.map()  # taken first: nothing may flush the file on its behalf
                     try:
@@ -100,8 +117,13 @@ def run_C15(case):
                                 raise Fail("C15.mmap_reader", "%s: %s block at %d read through the map is %r, through the storage %r" % (where, os.path.basename(path), off, (via_map or b"")[:24], (via_storage or b"")[:24]))
                             off += st.block_size
                             res.stats["mmap_blocks_compared"] += 1
+                        # keep this reader (which has now served every block once) alive until the next sweep
+                        if os.path.basename(path) not in retained and cfg.get("retain_map", True):
+                            retained[os.path.basename(path)] = (mm, size, st)
+                            mm = None
                     finally:
-                        mm.release()
+                        if mm is not None:
+                            mm.release()
 
             same_bytes("after construction")
             mmap_clause("after construction")
@@ -145,6 +167,11 @@ def run_C15(case):
                 refs = O.resolve_refs(op, model)
                 if refs is None:
                     continue
+                if op["op"] in ("clear", "reopen_overwrite") and retained:
+                    # the files are about to be truncated: a map of them must not be touched afterwards
+                    for key_, (mm_old_, _s, _st) in list(retained.items()):
+                        mm_old_.release()
+                    retained.clear()
                 sp = spans.get(i)
                 if sp is not None:
                     # a read iterator is partly consumed, the request runs, the iterator is drained
@@ -181,6 +208,9 @@ def run_C15(case):
                     diff = first_difference(oa_, ob_)
                     if diff:
                         raise Fail("C15.same_answers", "after op #%d: %s: memory %s, file %s" % (i, diff[0], short(diff[1]), short(diff[3])))
+            for key, (mm_old, _s, _st) in list(retained.items()):
+                mm_old.release()
+            retained.clear()
             if model.tail_blocks():
                 res.probes["multi_block_stems"] += 1
             if rules:
@@ -452,6 +482,6 @@ def gen_C11(rng, tier, seed):
             a = g.anchor()
             if a is not None and a not in [O.dec(x) for x, _ in rules]:
                 rules.append([O.enc(a), rng.choice(["domain", "path1", "path2", "subdomain"])])
-        clears.append({"pos": rng.randint(0, n), "default": rng.choice([None, "domain", "path1", "never"]), "rules": rules if rng.random() < 0.7 else None, "mem": rng.random() < 0.3})
+        clears.append({"pos": rng.randint(0, n), "default": rng.choice([None, "domain", "path1", "never", "empty"]), "rules": rules if rng.random() < 0.7 else None, "mem": rng.random() < 0.3})
     c["clears"] = clears
     return c
